@@ -34,9 +34,9 @@ PARTIAL = [
     "alignment quality is C09's: 'a sequence that contains the reference ORF verbatim once is trimmed exactly at that "
     "ORF's start' is checked only by the oracle predicate on the implementation's results (not proved; depends on "
     "sw_optimal in ATG mode)",
-    "longestORF_spec ('no input contains a longer ORF') is FALSE of the unchanged code: its negation "
-    "longestORF_regex_not_longest is proved instead, the positive theorem longestORF_scan_is_longest holds for the "
-    "scan search of proposed_fixes/c16-longestorf.diff (the model follows Gen.Facts.longestOrfRegex)",
+    "longestORF: the scan search now in /repo (fix: a715114, every ATG considered) satisfies longestORF_scan_is_longest "
+    "('no input contains a longer ORF'); for the regexp search first shipped its negation longestORF_regex_not_longest "
+    "is kept as a theorem (the model follows Gen.Facts.longestOrfRegex)",
     "Go memory model / pre-emption are not modelled: race freedom = lock-set + happens-before over syntactic facts + "
     "race-detector runs; accesses inside called methods (Translate, Clone, aligner) are not in the facts",
     "the consumer of the result channel is assumed to read until it is closed (the store of the pool model is unbounded)",
